@@ -274,8 +274,8 @@ class PE:
                     return False
             return True
         if k in ("Slice", "Array"):
-            if isinstance(v, tuple) and v and v[0] == "bytes":
-                items = list(v[1])
+            if isinstance(v, Tup) or (isinstance(v, tuple) and v and v[0] == "bytes"):
+                items = list(v.items) if isinstance(v, Tup) else list(v[1])
                 pre, suf = p["prefix"], p["suffix"]
                 if p.get("slice") is None and len(items) != len(pre) + len(suf):
                     return False
@@ -758,15 +758,17 @@ class PE:
             return a0      # integer widening of an opaque value
         if name == "from" and len(args) == 1 and isinstance(a0, Lin):
             return a0
+        if name in ("into", "from") and len(args) == 1 and isinstance(a0, (int, bool)) and (e.get("ty") or "") in INT_BITS:
+            return wrap(int(a0), e.get("ty") or "")
         if name in ("into", "from") and len(args) == 1 and not self.F.fns.get(res):
             # a blanket Into / generic From: dispatch to the crate's own `impl From<Arg> for Target`
-            target = e.get("ty") or ""
-            aty = (e["args"][0].get("ty") or "").lstrip("&")
-            for imp in self.F.impls:
-                if (imp.get("trait") or "").endswith("convert::From") and imp["self_ty"] == target and (imp.get("trait_args") or [None])[0] == aty:
-                    for it in imp["items"]:
-                        if it["name"] == "from" and it["def"] in self.F.fns:
-                            return self.call_fn(it["def"], [a0])
+            r = self._from_dispatch((e["args"][0].get("ty") or "").lstrip("&"), e.get("ty") or "", a0)
+            if r is not NotImplemented:
+                return r
+        if name in ("checked_sub", "checked_add", "checked_mul") and len(args) == 2 and all(isinstance(x, int) and not isinstance(x, bool) for x in args):
+            bits = INT_BITS.get(e["fn"].get("impl_self") or "", 64)
+            v = {"checked_sub": a0 - args[1], "checked_add": a0 + args[1], "checked_mul": a0 * args[1]}[name]
+            return some(v) if 0 <= v < (1 << bits) else NONE
         if name in ("into", "from") and len(args) == 1:
             # From<Error> for ErrorV5
             if isinstance(a0, Adt) and a0.adt == "common::error::Error" and (e.get("ty") or "").endswith("ErrorV5"):
@@ -788,9 +790,34 @@ class PE:
                 return len(a0[1]) if a0[0] == "bytes" else len(a0[1].encode())
             if isinstance(a0, Tup):
                 return len(a0.items)
+        if "NonZero" in d and name == "new" and len(args) == 1:
+            if isinstance(a0, int):
+                return some(Adt("nonzero", "NZ", {"0": a0})) if a0 != 0 else NONE
+            if isinstance(a0, Lin):
+                a0.log.append(("Eq", 0 - a0.b))
+                return some(Adt("nonzero", "NZ", {"0": a0})) if a0.val() != 0 else NONE
+        if "NonZero" in d and name == "get" and isinstance(a0, Adt) and a0.adt == "nonzero":
+            return a0.fields["0"]
+        if name == "to_be_bytes" and isinstance(a0, int):
+            bits = INT_BITS.get(e["fn"].get("impl_self") or "", 0)
+            if bits:
+                return Tup([(a0 >> (8 * i)) & 0xFF for i in reversed(range(bits // 8))])
+        if name == "from_be_bytes" and isinstance(a0, Tup) and all(isinstance(x, int) for x in a0.items):
+            v = 0
+            for x in a0.items:
+                v = (v << 8) | x
+            return v
         if d.startswith("core::panicking"):
             self.events.append(("panic", "explicit"))
             raise Undecided("panic reached")
+        return NotImplemented
+
+    def _from_dispatch(self, aty, target, a0):
+        for imp in self.F.impls:
+            if (imp.get("trait") or "").endswith("convert::From") and imp["self_ty"] == target and (imp.get("trait_args") or [None])[0] == aty:
+                for it in imp["items"]:
+                    if it["name"] == "from" and it["def"] in self.F.fns:
+                        return self.call_fn(it["def"], [a0])
         return NotImplemented
 
     def apply(self, f, args):
@@ -814,7 +841,15 @@ class PE:
                 return c
             if f[1] in self.F.fns:
                 return self.call_fn(f[1], args)
-            if f[1].endswith("convert::Into::into") or f[1].endswith("convert::From::from"):
+            rec = f[2] if len(f) > 2 and isinstance(f[2], dict) else {}
+            fd = rec.get("def") or f[1]
+            if fd.endswith("convert::Into::into") or fd.endswith("convert::From::from"):
+                ga = rec.get("args") or []
+                if len(ga) == 2 and len(args) == 1:
+                    src, dst = (ga[0], ga[1]) if fd.endswith("Into::into") else (ga[1], ga[0])
+                    r = self._from_dispatch(src.lstrip("&"), dst, args[0])
+                    if r is not NotImplemented:
+                        return r
                 return args[0]
         raise Undecided("apply %r" % (f,))
 
